@@ -18,6 +18,8 @@ every datagram (oracle clause `c22_panic`).
 -/
 import NtpVerif.Proofs.ServerSize
 import NtpVerif.Props.C18
+import NtpVerif.Model.ServerReq
+import NtpVerif.Proofs.ServerParse
 
 namespace NtpVerif.C22
 open NtpVerif.Server NtpVerif.RespSize
@@ -190,6 +192,69 @@ theorem never_panics (cfg : Config) (info : Info) (env : Env) (req : Req)
     · simp at hpanic
     · simp at hpanic
 
+/-! #### the parser facts are theorems about the parser model -/
+
+/-- `ParserFacts` holds for every request record obtained from the packet parser (wire cluster's model of
+    `NtpPacket::deserialize`, with any decryption oracle and key set): an NTPv3 packet carries no NTS content
+    and an accepted NTPv5 packet is a whole number of words long. -/
+theorem parserFacts_reqOf (dec : Wire.Dec) (ks : Wire.KeySet) (data : Bytes) (fv encw : Nat) :
+    ParserFacts (reqOf dec ks data fv encw) := by
+  unfold reqOf
+  cases hp : Wire.parse dec (.keyset ks) data with
+  | ok p cookie =>
+    have hr : Wire.parseR dec (.keyset ks) data = .ok (p, cookie, true) := by
+      unfold Wire.parse at hp
+      split at hp <;> first | (cases hp; done) | (cases hp; assumption)
+    have hf := ServerParse.parseR_facts hr
+    refine ⟨?_, ?_⟩
+    · intro h3
+      cases hh : p.header with
+      | v3 h => rw [hh] at hf; refine ⟨by simp [reqOfPacket, hf.1], by simp [reqOfPacket]⟩
+      | v4 h => simp [reqOfPacket, versionOf, hh] at h3
+      | v5 h => simp [reqOfPacket, versionOf, hh] at h3
+    · intro h5
+      cases hh : p.header with
+      | v3 h => simp [reqOfPacket, versionOf, hh] at h5
+      | v4 h => simp [reqOfPacket, versionOf, hh] at h5
+      | v5 h => rw [hh] at hf; simpa [reqOfPacket] using hf
+  | decryptErr p =>
+    have hr : ∃ c, Wire.parseR dec (.keyset ks) data = .ok (p, c, false) := by
+      unfold Wire.parse at hp
+      split at hp <;> first | (cases hp; done) | (cases hp; exact ⟨_, by assumption⟩)
+    obtain ⟨c, hr⟩ := hr
+    have hf := ServerParse.parseR_facts hr
+    refine ⟨?_, ?_⟩
+    · intro h3
+      cases hh : p.header with
+      | v3 h => rw [hh] at hf; exact absurd hf.2 (by simp)
+      | v4 h => simp [reqOfPacket, versionOf, hh] at h3
+      | v5 h => simp [reqOfPacket, versionOf, hh] at h3
+    · intro h5
+      cases hh : p.header with
+      | v3 h => simp [reqOfPacket, versionOf, hh] at h5
+      | v4 h => simp [reqOfPacket, versionOf, hh] at h5
+      | v5 h => rw [hh] at hf; simpa [reqOfPacket] using hf
+  | err e => exact ⟨fun h3 => by simp [reqNone] at h3, fun h5 => by simp [reqNone] at h5⟩
+  | panic => exact ⟨fun h3 => by simp [reqNone] at h3, fun h5 => by simp [reqNone] at h5⟩
+  | fuel => exact ⟨fun h3 => by simp [reqNone] at h3, fun h5 => by simp [reqNone] at h5⟩
+
+/-- **No datagram can crash the server**, end to end over the parser model: for every byte string, decryption
+    oracle, key set, configuration, address classification, buffer and synchronisation state satisfying `InfoOk`,
+    parsing the datagram and handling the result returns normally.  (Parser crash-freedom: `C23.never_panics`.) -/
+theorem never_panics_wire (cfg : Config) (info : Info) (env : Env) (dec : Wire.Dec) (ks : Wire.KeySet)
+    (data : Bytes) (fv encw : Nat)
+    (hinfo : InfoOk info env (reqOf dec ks data fv encw).version) :
+    handle cfg info env (reqOf dec ks data fv encw) ≠ .panic := by
+  apply never_panics cfg info env _ ?_ (parserFacts_reqOf dec ks data fv encw) hinfo
+  have hnp := C23.never_panics dec (.keyset ks) data
+  unfold reqOf
+  cases hp : Wire.parse dec (.keyset ks) data with
+  | ok p cookie => simp [reqOfPacket]
+  | decryptErr p => simp [reqOfPacket]
+  | err e => simp [reqNone]
+  | panic => exact absurd hp hnp.1
+  | fuel => exact absurd hp hnp.2
+
 /-! #### non-vacuity: the assumptions hold for ordinary states, and each is needed -/
 
 def info0 : Info :=
@@ -219,3 +284,5 @@ example : ∀ d, rootDispersion env0.rvar = some d →
 end NtpVerif.C22
 
 #print axioms NtpVerif.C22.never_panics
+#print axioms NtpVerif.C22.parserFacts_reqOf
+#print axioms NtpVerif.C22.never_panics_wire
